@@ -38,6 +38,16 @@ CHECKS = [
   "design_ref": "DESIGN.md §5 C04, §5A",
   "note": _TB + "Earley oracle (Python) used for the failing-input search and the with-recovery clause.",
   "technique": "Coq proof of a verified validator (viable-prefix property) + interpreter/implementation differential"},
+ {"id": "C09",
+  "text": "Coq theorems about a literal mirror of the lexer's scan loop (parameterised by a match oracle for the regex crate), for ALL rule "
+          "tables, start-state tables, oracles and inputs: termination within fuel and no panic, longest non-empty match among the active "
+          "rules with the earliest rule on ties, contiguity/tiling up to the end or a single error, named rules emit / unnamed skip, the "
+          "run-length-encoded start-state stack refines a plain stack (push/pop/replace, pop-to-empty resets to INITIAL), inclusive/exclusive "
+          "activity, and set_rule_ids returns exactly the names missing on either side. The mirror is tied to the code by running it, with "
+          "a match table computed independently with the regex crate, against LRNonStreamingLexerDef on generated specs x inputs.",
+  "design_ref": "DESIGN.md §5 C09",
+  "note": _TB + "regex semantics is the regex crate's (oracle, not modelled); start-state ids/exclusive flags are read from Debug output.",
+  "technique": "Coq proof (mirror of the scan loop meets a declarative spec, induction over the input) + differential correspondence with a regex-crate match table"},
 ]
 
 _PENDING = "check not built yet in this round (work in progress; see DESIGN.md §10 build order)"
